@@ -7,7 +7,7 @@ CLAIMED = {
  'C13': dict(
    text="Function-level proof (Verus on the verbatim-extracted Int32 arm of DiskRowset::start_rowid): for every sparse first-key index, "
         "every sorted key column with duplicates and every lower bound, the seek position never skips a row with key >= bound. "
-        "Also the index-entry bookkeeping of BlockIndexBuilder::finish_block (first row ids tile the row space). Partial: the per-row mask in RowSetIterator, the planner's range analysis and the column-position assumptions are not under contract.",
+        "Also: the key-range bitmap is AND-ed with the delete-vector visibility and a row-set scan is ended only when the first row of a batch is past the upper bound (U-vismask); index-entry bookkeeping of finish_block. Partial: the computation of the in-range window over DataValue, the planner's range analysis and the column-position assumptions are not under contract.",
    note="Assumes: index entries record the key at their first row (writer side, U-finishblock), i32::decode is a function of the bytes, key column = storage column 0, key type Int32.",
    technique="Verus contracts + loop invariant on mechanically extracted statement range of start_rowid", design='5 (C13), 4.1 U-startrow'),
  'C18': dict(
@@ -23,7 +23,7 @@ CLAIMED.update({
    text="Function-level proof of the one piece of crash logic that is a function of data: the record-replay loop of Manifest::replay, extracted verbatim. "
         "For every record stream: all readable => Ok(fold); first unreadable record is an EOF error (torn tail) => Ok with the fold of the readable prefix and truncation requested; "
         "any other decode error is reported. Lemmas over the fold: for every sequence of acknowledged transactions and every End-free partial tail the recovered operations are "
-        "exactly the acknowledged ones (atomic, durable), and recovering again gives the same state. Also: DROP TABLE is logged as ONE drop-complete transaction (precondition of commit_changes), boot apply loop as for C03. Partial: write ordering in commit, orphan files, directory creation, rename atomicity are not under contract.",
+        "exactly the acknowledged ones (atomic, durable), and recovering again gives the same state. Also: Manifest::append writes Begin, entries, End (End last) in one write and fsyncs; commit publishes a snapshot only after the append succeeded; DROP TABLE is ONE drop-complete transaction; boot repairs every crash-reachable directory state; files a crash can leave behind (manifest.tmp.json, DV files) are opened create+truncate; boot apply loop as for C03. Partial: write ordering in commit, orphan files, directory creation, rename atomicity are not under contract.",
    note="Assumes A-serde (a byte prefix of concatenated JSON records yields the complete records then at most one EOF error; StreamDeserializer::byte_offset is the end of the last complete record), each append writes Begin..End with End last; file truncation I/O itself unverified; async sequentialised.",
    technique="Verus loop invariant on the extracted replay loop + inductive lemmas over the transaction log", design='5 (C04), 4.4 U-replay'),
  'C03': dict(
@@ -56,8 +56,8 @@ CLAIMED.update({
  'C06': dict(
    text="Function-level proofs, layer by layer: fixed-width value codecs round-trip for every value (Kani, in place, all 10 types; Interval sub-day part is a recorded known finding); "
         "RLE varint round-trips every u32; plain i32 block builder/iterator: bytes written are a function of the appended values and iteration from any position with any batch sizes returns exactly "
-        "items[pos..pos+k] (Verus, extracted); nullable iterator keeps its bitmap cursor equal to the value cursor under skip/next_batch; further units as listed in the evidence. "
-        "Partial: char/blob/vector/dict blocks, append_one_by_one and the async column fetch loop are not under contract.",
+        "items[pos..pos+k] (Verus, extracted); nullable builder/decoder split and iterator cursor pairing; blob (varchar) blocks; RLE iterator/builder against expand(counts, values); dictionary builder/iterator; column scan loop returns consecutive rows at the reported row id; row-set fetch size never crosses a column's block; block index tiling and block_of_row. "
+        "Partial: fixed-width char and vector blocks, builders' finish() write cursors, column builders (Peekable adapters) are not under contract.",
    note="Assumes: generic code verified at T=i32; bitvec copy statement in NullableBlockIterator::next_batch elided; A-fw axioms backed by the Kani harnesses; rows per block fit usize.",
    technique="Kani loop-free harnesses in place (codecs) + Verus contracts on extracted block builders/iterators", design='5 (C06), 4.1'),
  'C07': dict(
